@@ -381,6 +381,21 @@ def short(callee):
     return callee
 
 
+def _has_phi(t):
+    stack = [t]
+    n = 0
+    while stack:
+        x = stack.pop()
+        n += 1
+        if n > 20000:
+            return True
+        if isinstance(x, tuple):
+            if x and x[0] == 'phi':
+                return True
+            stack.extend(y for y in x if isinstance(y, tuple))
+    return False
+
+
 class Ctx:
     __slots__ = ('id', 'key', 'body', 'parent', 'callbb', 'children', 'closure_call', 'is_promoted', 'depth')
 
@@ -414,6 +429,9 @@ class EntryGraph:
         self.ctxs = []
         self._term_cache = {}
         self._mu_seen = set()
+        self._S_ids = {}
+        self._pre_cache = {}
+        self._pred = None
         self._build_ctx_tree()
         self._explore()
 
@@ -520,7 +538,60 @@ class EntryGraph:
                 return n
         return '_%d' % local
 
+    # ---- path-sensitive evaluation: a value used at a program point is evaluated twice when it contains a phi - the second time
+    # definitions from which no abstract state can reach the states of the USE node are dropped (a tag fixed earlier on the path,
+    # e.g. an enum "which path" value matched later, selects the matching alternative of data merged alongside it)
+    _in_top = False
+    _S = None
+    _S_id = 0
+
+    def _top(self, ctx, bb, fn):
+        if self._in_top or ctx.id < 0:
+            return fn()
+        self._in_top = True
+        try:
+            t = fn()
+            if not _has_phi(t):
+                return t
+            S = frozenset(self.node_states.get((ctx.id, bb), ())) if hasattr(self, 'node_states') else None
+            if not S:
+                return t
+            self._S = S
+            self._S_id = self._S_ids.setdefault(S, len(self._S_ids) + 1)
+            try:
+                return fn()
+            finally:
+                self._S = None
+                self._S_id = 0
+        finally:
+            self._in_top = False
+
+    def _pre_star(self):
+        """states from which some state of the current use node is reachable"""
+        r = self._pre_cache.get(self._S_id)
+        if r is not None:
+            return r
+        if self._pred is None:
+            pred = [[] for _ in self.states]
+            for s, outs in enumerate(self.succ):
+                for d, _ in outs:
+                    pred[d].append(s)
+            self._pred = pred
+        seen = set(self._S)
+        work = list(self._S)
+        while work:
+            x = work.pop()
+            for p_ in self._pred[x]:
+                if p_ not in seen:
+                    seen.add(p_)
+                    work.append(p_)
+        self._pre_cache[self._S_id] = seen
+        return seen
+
     def term_operand(self, ctx, bb, idx, o, depth=0):
+        return self._top(ctx, bb, lambda: self._term_operand(ctx, bb, idx, o, depth))
+
+    def _term_operand(self, ctx, bb, idx, o, depth=0):
         if o['k'] == 'const':
             if 'promoted' in o:
                 pb = ctx.body['promoted'][o['promoted']]
@@ -602,7 +673,10 @@ class EntryGraph:
         return ('payload', variant, idx, base)
 
     def term_local(self, ctx, bb, idx, local, depth=0):
-        ck = (ctx.id, ctx.body.get('key'), bb, idx, local)
+        return self._top(ctx, bb, lambda: self._term_local(ctx, bb, idx, local, depth))
+
+    def _term_local(self, ctx, bb, idx, local, depth=0):
+        ck = (ctx.id, ctx.body.get('key'), bb, idx, local, self._S_id)
         if ck in self._term_cache:
             v = self._term_cache[ck]
             if v is None:
@@ -650,6 +724,11 @@ class EntryGraph:
         if not ns:
             return rd
         live = [d for d in rd if (ctx.id, ctx.body['defs'][d]['bb']) in ns]
+        if self._S is not None and len(live) > 1:
+            pre = self._pre_star()
+            feas = [d for d in live if any(s_ in pre for s_ in ns[(ctx.id, ctx.body['defs'][d]['bb'])])]
+            if feas:
+                live = feas
         return frozenset(live) if live else rd
 
     def param_term(self, ctx, local, depth):
@@ -696,6 +775,9 @@ class EntryGraph:
         return ('call', callee, args, site)
 
     def term_def(self, ctx, d, depth):
+        return self._top(ctx, d['bb'], lambda: self._term_def(ctx, d, depth))
+
+    def _term_def(self, ctx, d, depth):
         k = d['kind']
         if k == 'assign':
             return self.term_rvalue(ctx, d['bb'], d['idx'], d['rv'], depth)
@@ -987,6 +1069,10 @@ class EntryGraph:
         j = 0
         while j < len(rest):
             e = rest[j]
+            if v is not None and e == '*' and v[0] == 'ref':
+                v = env.get(v[1])
+                j += 1
+                continue
             if v is None or not isinstance(e, dict):
                 return None
             if 'v' in e:
@@ -1021,8 +1107,18 @@ class EntryGraph:
         if o['k'] in ('copy', 'move'):
             return self._val_place(env, cid, o['pl'])
         if o['k'] == 'const':
-            if o['ty'] == 'bool':
+            if o.get('ty') == 'bool':
                 return ('b', o['v'].strip().endswith('true'))
+            # a constant unit variant of a workspace enum (`Direction::Take` passed as an argument)
+            a = self.crate.adts.get(o.get('ty', ''))
+            if a is not None and len(a['variants']) > 1:
+                name = o['v'].strip().rsplit('::', 1)[-1]
+                for v in a['variants']:
+                    if v['name'] == name and not v['fields']:
+                        try:
+                            return ('t', int(v['discr']))
+                        except ValueError:
+                            return ('t', v['idx'])
         return None
 
     def _eval_rv(self, env, cid, rv):
@@ -1045,6 +1141,16 @@ class EntryGraph:
             if any(x is not None for x in pay):
                 return ('t', self.crate.discr_of(rv['adt'], rv['vidx']), pay, rv['vidx'])
             return ('t', self.crate.discr_of(rv['adt'], rv['vidx']))
+        if k == 'agg' and rv['kind'] == 'closure':
+            # closure environment: captured values and captured references (the borrow checker keeps the referents alive while the
+            # closure can run; a reference into a frame that has returned resolves to "unknown")
+            pay = []
+            for o in rv['ops']:
+                v = self._val_op(env, cid, o)
+                pay.append(v if v is not None and v[0] in ('b', 't', 's', 'bs', 'atom', 'pv', 'ref') else None)
+            if any(x is not None for x in pay):
+                return ('s', tuple(pay))
+            return None
         if k == 'agg' and (rv['kind'] == 'tuple' or (rv['kind'] == 'adt' and not rv.get('is_enum'))):
             pay = tuple(self._payload_val(self._val_op(env, cid, o)) for o in rv['ops'])
             if any(x is not None for x in pay):
@@ -1057,6 +1163,10 @@ class EntryGraph:
                 if v is not None and v[0] == 't':
                     return ('i', v[1])
                 return ('dof', tgt, self._nvariants(rv.get('ty', '')))
+            # discriminant of a component of a tracked tuple / struct (`match (a, b)`)
+            v = self._val_place(env, cid, rv['pl'])
+            if v is not None and v[0] == 't':
+                return ('i', v[1])
             return None
         if k == 'bin' and rv['op'] in ('Eq', 'Ne', 'Lt', 'Le', 'Gt', 'Ge'):
             pa = self._stable_op(env, cid, rv['a'])
@@ -1307,9 +1417,25 @@ class EntryGraph:
                         if v is not None and v[0] == 'ref':
                             env.pop(v[1], None)
                 dest = t['dest']
+                keep = None
+                ta = transparent_arg(t['callee'])
+                if ta is not None and ta < len(t['args']) and not dest.get('p'):
+                    # identity-like library calls between values of the SAME type (clone, the reflexive From/Into, deref) hand the
+                    # tracked abstract value on (a conversion to another type does not: its discriminants mean something else)
+                    aty = (t['argtys'][ta] if ta < len(t.get('argtys', [])) else '').lstrip('&').strip()
+                    if aty.startswith('mut '):
+                        aty = aty[4:]
+                    if aty and aty == body['locals'][dest['l']]:
+                        v = self._val_op(env, cid, t['args'][ta])
+                        if v is not None and v[0] == 'ref':
+                            v = env.get(v[1])
+                        if v is not None and v[0] in ('b', 't', 's', 'bs', 'atom'):
+                            keep = v
                 if not dest.get('p'):
                     env.pop((cid, dest['l']), None)
-                    if body['locals'][dest['l']] == 'bool':
+                    if keep is not None:
+                        env[(cid, dest['l'])] = keep
+                    elif body['locals'][dest['l']] == 'bool':
                         site = (cid, bb, len(blk['st']))
                         env.pop(('A', site), None)
                         env[(cid, dest['l'])] = ('bs', site, False)
